@@ -168,7 +168,14 @@ fn judge(rep: &mut Report, s: &Solid) {
         }
     }
     // merge coincident vertices: union-find over a spatial hash
-    let tol = 1e-4 * extent;
+    // Per-axis tolerance, 1e-4 of the bounding-box extent along that axis:
+    // rounding error in a coordinate scales with the extent along its own
+    // axis, and a single tolerance taken from the largest extent would weld
+    // the rings of a thin solid (radius ≪ height) into a line.
+    let tol3: [f64; 3] = std::array::from_fn(|k| {
+        let (lo, hi) = pos.iter().fold((f64::INFINITY, f64::NEG_INFINITY), |(lo, hi), p| (lo.min(p[k]), hi.max(p[k])));
+        (1e-4 * (hi - lo)).max(1e-300)
+    });
     let mut parent: Vec<usize> = (0..nv).collect();
     fn find(p: &mut Vec<usize>, i: usize) -> usize {
         let mut r = i;
@@ -183,16 +190,17 @@ fn judge(rep: &mut Report, s: &Solid) {
         }
         r
     }
-    let cell = |x: f64| (x / tol).floor() as i64;
+    let cell = |x: f64, k: usize| (x / tol3[k]).floor() as i64;
     let mut grid: HashMap<(i64, i64, i64), Vec<usize>> = HashMap::new();
     for (i, p) in pos.iter().enumerate() {
-        let c = (cell(p[0]), cell(p[1]), cell(p[2]));
+        let c = (cell(p[0], 0), cell(p[1], 1), cell(p[2], 2));
         for dx in -1..=1 {
             for dy in -1..=1 {
                 for dz in -1..=1 {
                     if let Some(v) = grid.get(&(c.0 + dx, c.1 + dy, c.2 + dz)) {
                         for &j in v {
-                            if len3(sub3(pos[j], *p)) <= tol {
+                            let d = sub3(pos[j], *p);
+                            if (0..3).all(|k| d[k].abs() <= tol3[k]) {
                                 let (a, b) = (find(&mut parent, i), find(&mut parent, j));
                                 if a != b {
                                     parent[a] = b;
@@ -284,7 +292,7 @@ fn lathe_params(k: u64, max_sec: u32, max_seg: u32) -> (u32, u32) {
 pub fn run(cfg: &Cfg, rep: &mut Report) {
     let (max_sec, max_seg) = if cfg.quick() { (32u32, 16u32) } else { (64, 32) };
     rep.rule = format!("case = one generator configuration; exhaustive over sectors 3..={max_sec} × segments 1..={max_seg} for sphere/torus/cylinder/cone/capsule (capped and uncapped, several radii), the five Platonic solids, boxes with random corners, and straight-profile lathes over partial azimuth ranges; all are non-trivial; distinct by hash of the parameters");
-    rep.assumptions.push("outward geometric normal = (b−a)×(c−a), the convention under which the renderer's back-face culling keeps outward faces; coincident vertices are merged by union-find at 1e-4·extent; faces that collapse under merging are dropped".into());
+    rep.assumptions.push("outward geometric normal = (b−a)×(c−a), the convention under which the renderer's back-face culling keeps outward faces; coincident vertices are merged by union-find when they differ by at most 1e-4 of the bounding-box extent along each axis; faces that collapse under merging are dropped".into());
     rep.pin("F5.octahedron_normals", {
         let mut r2 = Report::new();
         judge(&mut r2, &Solid::Octa);
@@ -350,7 +358,7 @@ pub fn run(cfg: &Cfg, rep: &mut Report) {
     rep.run_stream(cfg, 2, "random_and_partial_lathes", cfg.n(3_000, 200_000), |rng, _, rep| {
         let sec = 3 + rng.below(40) as u32;
         let seg = 1 + rng.below(20) as u32;
-        let r = rng.log_f32(0.01, 100.0);
+        let r = rng.log_f32(1e-6, 1e4);
         let s = match rng.below(6) {
             0 => {
                 let az0 = rng.f32_in(-1.0, 1.0);
